@@ -8,21 +8,7 @@ verus! {
 //%include ../common/encoder.rs
 //%include ../common/header.rs
 
-impl BinEncodable for Header {
-//%fn crates/proto/src/op/header.rs :: impl BinEncodable for Header :: emit
-//%contract
-        ensures final(encoder).name_pointers == old(encoder).name_pointers,
-            r is Ok ==> final(encoder).offset == old(encoder).offset + 12,
-            r is Ok ==> hdr_bytes_at(*self, final(encoder).bytes(), old(encoder).offset as int, 0xFF),
-            r is Ok ==> final(encoder).bytes().len() == (if old(encoder).offset + 12 > old(encoder).bytes().len() { old(encoder).offset + 12 } else { old(encoder).bytes().len() as int }),
-            r is Ok ==> (forall|i: int| old(encoder).offset + 12 <= i < old(encoder).bytes().len() ==> final(encoder).bytes()[i] == old(encoder).bytes()[i]),
-            r is Err ==> old(encoder).offset + 12 > old(encoder).max(),
-//%before "r_z_ad_cd_rcod.emit(encoder)?;"
-        proof { let x = r_z_ad_cd_rcod; assert(x & 0xFF == x) by (bit_vector); }
-//%end
-}
-//%impl crates/proto/src/op/header.rs :: impl EncodedSize for Header
-//%end
+
 
 // ---- second instantiation of the generic Place<T> machinery: T = Header (the header back-patch) ----
 impl<'a> BinEncoder<'a> {
